@@ -126,7 +126,13 @@ def _ev(e, st):
     if k in ("AddExpression", "SubtractExpression"):
         v = a + b if k == "AddExpression" else a - b
         if st.inexact:
-            c = float("inf") if v == 0 else (_f(abs(a)) * ca + _f(abs(b)) * cb) / _f(abs(v)) if (a != 0 or b != 0) else 1.0
+            den = _f(abs(v))
+            if v == 0 or den == 0.0:
+                c = float("inf")
+            elif a != 0 or b != 0:
+                c = (_f(abs(a)) * ca + _f(abs(b)) * cb) / den
+            else:
+                c = 1.0
         else:
             c = 1.0
         return v, max(c, 1.0) if c == c else float("inf")
